@@ -187,11 +187,19 @@ def print_token(root: Node, ring_style="digit"):
         for (no, ro) in node.rings:
             flags.add("ring")
             if no in ring_open:
-                j, aro = ring_open.pop(no)
+                j, aro, ro_open, sym_at_open = ring_open.pop(no)
+                order = max(ro, ro_open)
+                if order > 1 and not sym_at_open:
+                    s += ORDER_SYM[order]  # bond symbol of the ring bond, written in front of the closing digit
+                    flags.add("ring_bond_symbol")
                 s += ring_txt(no)
-                bonds.append((j, idx, 1.5 if (aro and node.label in AROMATIC) else float(ro)))
+                bonds.append((j, idx, 1.5 if (aro and node.label in AROMATIC and order == 1) else float(order)))
             else:
-                ring_open[no] = (idx, node.label in AROMATIC)
+                sym_here = ro > 1 and (no % 2 == 0)
+                if sym_here:
+                    s += ORDER_SYM[ro]  # ... or in front of the opening digit
+                    flags.add("ring_bond_symbol")
+                ring_open[no] = (idx, node.label in AROMATIC, ro, sym_here)
                 s += ring_txt(no)
         n = len(node.children)
         for k, entry in enumerate(node.children):
@@ -341,7 +349,7 @@ class Mol:
 
 def mix_text(mix, style="plain"):
     kind, x = mix
-    st = style if style in ("plain", "float", "exp") else "plain"
+    st = style if style in ("plain", "float", "exp", "nolead") else "plain"
     return ".|" + fmt_num(x, st) + ("%" if kind == "pct" else "") + "|"
 
 
